@@ -109,16 +109,20 @@ end
 def dictOf : J → Except Err Val
   | .obj _ => .ok (.attrs [])
   | .str [] => .ok (.attrs [])
-  | .str _ => .error (.leaked "ValueError")      -- "dictionary update sequence element #0 has length 1"
   | .arr [] => .ok (.attrs [])
   | .arr _ => .error (.unsupported "dict(list)")  -- never reached: `find_var` keeps arrays away
-  | _ => .error (.leaked "TypeError")             -- "'int' object is not iterable"
+  -- `except (TypeError, ValueError): raise ParserError` around `dict(value)`:
+  -- "'int' object is not iterable", "dictionary update sequence element #0 has length 1"
+  | _ => .error (.parser "Failed to bind value to the attributes field")
 
 /-- `DictDecoder.bind_text` -/
 def bindTextJ (e : BEnv) (cfg : ParserConfig) (var : XmlVar) (value : J) : Except Err Val := do
   if var.isElements then throw (.unsupported "compound field")
   if var.anyType || var.isWildcard then throw (.unsupported "anyType field")
-  let s ← serializeJ value
+  -- `try: value = converter.serialize(value) except TypeError: raise ParserError`
+  let s ← match serializeJ value with
+    | .error (.leaked "TypeError") => .error (.parser "Failed to bind value: null item in a list of tokens")
+    | r => r
   let r ← parseVar e cfg var.toVarCore s []
   return r.val
 
@@ -139,8 +143,7 @@ def elementClasses (m : XmlMeta) : List ClassId :=
 /-- the `xsi_type` slot of a derived dictionary handed to `context.find_type` -/
 def findTypeJ (Γ : Ctx) : J → Except Err (Option ClassId)
   | .str s => .ok (Γ.findType s)
-  | .arr _ | .obj _ => .error (.leaked "TypeError")     -- unhashable key for the lookups
-  | _ => .ok none
+  | _ => .ok none      -- `find_type` is only asked for a `str` (a list/dict would be unhashable)
 
 /-- `DictDecoder.bind_complex_type`, with the two recursive entry points passed in
 (`best` = `bind_best_dataclass`, `one` = `bind_dataclass`) -/
@@ -151,7 +154,7 @@ def bindComplexWith (best : List (Str × J) → List ClassId → Except Err Val)
   else if var.anyType || var.isWildcard then .error (.unsupported "anyType field")
   else
     match var.clazz with
-    | none => .error (.leaked "AssertionError")          -- `assert var.clazz is not None`
+    | none => .error (.parser "Failed to bind object to a field of primitive type")  -- `if var.clazz is None: raise ParserError`
     | some c =>
       let subs := subclassesOf Γ c
       if !subs.isEmpty then best kvs (subs ++ [c])
@@ -177,9 +180,11 @@ def bindDataclass (e : BEnv) (Γ : Ctx) (cfg : ParserConfig) : Nat → J → Cla
             | none =>
               if cfg.failOnUnknownProperties then throw (.parser "Unknown property") else pure params
             | some var =>
-              -- `if var.wrapper: value = value[var.local_name]` (also when the key was the
-              -- field's own name: then `value` is a list and the subscript raises)
-              let value ← if (wrapperName var).isSome then
+              -- `if var.wrapper and var.local_name != key: value = value[var.local_name]`
+              -- (then `find_var` matched through the wrapper key: `value` is an object that
+              -- has the key; the two failing subscripts are kept as Python would raise them and
+              -- proved unreachable)
+              let value ← if (wrapperName var).isSome && var.localName ≠ kv.1 then
                   (match kv.2 with
                    | .obj inner =>
                      (match J.get inner var.localName with
@@ -305,14 +310,14 @@ def decodeAuto (e : BEnv) (Γ : Ctx) (cfg : ParserConfig) (fuel : Nat) (data : J
 
 /-- `JsonParser.parse`: `load_json` runs under `except ValueError: raise ParserError`, which
 covers `json.JSONDecodeError`, `UnicodeDecodeError` and the bare `ValueError` of the integer
-digit limit; `RecursionError` is a `RuntimeError` and passes -/
+digit limit; and (since the follow-up repair) `RecursionError` -/
 def parseJson (e : BEnv) (Γ : Ctx) (cfg : ParserConfig) (fuel : Nat) (clazz : ClassId) (listOf : Bool) :
     Loaded → Except Err Val
   | .value j => decode e Γ cfg fuel clazz listOf j
   | .decodeError => .error (.parser "JSONDecodeError")
   | .unicodeError => .error (.parser "UnicodeDecodeError")
   | .intLimit => .error (.parser "ValueError")
-  | .recursionError => .error (.leaked "RecursionError")
+  | .recursionError => .error (.parser "RecursionError")
 
 /-- `JsonParser.parse(source)` without a target class -/
 def parseJsonAuto (e : BEnv) (Γ : Ctx) (cfg : ParserConfig) (fuel : Nat) : Loaded → Except Err Val
@@ -320,6 +325,6 @@ def parseJsonAuto (e : BEnv) (Γ : Ctx) (cfg : ParserConfig) (fuel : Nat) : Load
   | .decodeError => .error (.parser "JSONDecodeError")
   | .unicodeError => .error (.parser "UnicodeDecodeError")
   | .intLimit => .error (.parser "ValueError")
-  | .recursionError => .error (.leaked "RecursionError")
+  | .recursionError => .error (.parser "RecursionError")
 
 end Xs.Fault
